@@ -17,6 +17,7 @@ func init() {
 	zzverif.Register("VerifC06LineMut", VerifC06LineMut)
 	zzverif.Register("VerifC06LineMutLong", VerifC06LineMutLong)
 	zzverif.Register("VerifC06LineMutIns", VerifC06LineMutIns)
+	zzverif.Register("VerifC06LineMutFull", VerifC06LineMutFull)
 }
 
 // seed lines for the mutation harness: realistic cursor lines of 8..24 bytes
@@ -165,9 +166,18 @@ func verifC06Line(maxN int) {
 	zzverif.Reach("C06.line.h" + zzverif.Itoa(h))
 }
 
-// VerifC06LineMut: every helper on every seed line with one arbitrary byte substituted at any
-// place, cursor coordinates 0..255 or 2^32-256..2^32-1. (Runs in both tiers.)
-func VerifC06LineMut() { verifC06LineMut(c06Seeds, c06Substitute, 1) }
+// the quick tier's half of the seed lines: posting with tags, tab + virtual + quoted commodity,
+// transaction header, comment with tags, non-ASCII posting
+func c06SeedsQuick() []string {
+	return []string{c06Seeds[0], c06Seeds[2], c06Seeds[3], c06Seeds[7], c06Seeds[9]}
+}
+
+// VerifC06LineMut (quick): every helper on five seed lines with one arbitrary byte substituted
+// at any place, cursor coordinates 0..255 or 2^32-256..2^32-1.
+func VerifC06LineMut() { verifC06LineMut(c06SeedsQuick(), c06Substitute, 1) }
+
+// VerifC06LineMutFull (thorough): the same on all ten seed lines.
+func VerifC06LineMutFull() { verifC06LineMut(c06Seeds, c06Substitute, 1) }
 
 // VerifC06LineMutIns (thorough): the same seed lines with one arbitrary byte inserted at any
 // place, or one byte deleted.
